@@ -16,7 +16,8 @@
 //!   K r s                       r = s.clone()
 //!   S r j|v                     r = deserialize(serialize(r)) via JSON text | Value tree
 //!   SO r j|v                    serialize r and drop the result
-//!   P r T lo hi v|r seed x...   r = parallel collect in a T-thread pool (C19)
+//!   P r T lo hi v|r dseed fseed x...   r = parallel collect in a T-thread pool, with delay
+//!                               injection (dseed) and an optional filter stage (fseed) (C19)
 //!   O r                         observe every public accessor
 //!   OS r                        observe + dump serde-visible state
 //!   T r depth a...              (Quantile tries) DFS over alphabet a... to depth, from r
@@ -212,8 +213,9 @@ fn run_case<T: Est>(params: &[&str], ops: &[Vec<&str>], out: &mut String) {
                     max_len: op[4].parse().unwrap(),
                     byref: op[5] == "r",
                     delay_seed: op[6].parse().unwrap(),
+                    filter_seed: op[7].parse().unwrap(),
                 };
-                let vals = pfs(&op[7..]);
+                let vals = pfs(&op[8..]);
                 match guarded(|| T::par(&cfg, &vals)) {
                     Ok(Some(v)) => regs[reg(op[1])] = Some(v),
                     Ok(None) => unsupported!(),
